@@ -20,6 +20,43 @@ mod verif_c12_direction {
         Ok(())
     }
 
+    /// stub for `DataStreams::try_accept_sid` in the harnesses where it must NOT be reached (frames on our own streams,
+    /// and direction errors that are detected before the accept): reaching it fails the obligation. It cuts the
+    /// stream-creation loop (HashMap/BTreeMap/VecDeque inserts) out of the symbolic execution.
+    fn never_accept<TX>(_ds: &DataStreams<TX>, _sid: StreamId) -> Result<(), ExceedLimitError>
+    where
+        TX: SendFrame<StreamCtlFrame> + Clone + Send + 'static,
+    {
+        assert!(false, "C12.direction.no_stream_is_accepted_on_this_path");
+        kani::assume(false);
+        Ok(())
+    }
+
+    /// stubs for `DataStreams::{create_sender, create_recver}` where no stream may be created (refused stream id)
+    fn never_create_sender<TX>(_ds: &DataStreams<TX>, _sid: StreamId, _buf_size: u64) -> ArcSender<Ext<TX>>
+    where
+        TX: SendFrame<StreamCtlFrame> + Clone + Send + 'static,
+    {
+        assert!(false, "C12.direction.refused_stream_creates_no_sender");
+        kani::assume(false);
+        unreachable!()
+    }
+
+    fn never_create_recver<TX>(_ds: &DataStreams<TX>, _sid: StreamId, _buf_size: u64) -> ArcRecver<Ext<TX>>
+    where
+        TX: SendFrame<StreamCtlFrame> + Clone + Send + 'static,
+    {
+        assert!(false, "C12.direction.refused_stream_creates_no_receiver");
+        kani::assume(false);
+        unreachable!()
+    }
+
+    /// stub for `RandomState::new` (keys of the HashMap input table come from a `getrandom` syscall that Kani cannot
+    /// execute): fixed keys. RandomState is `{ k0: u64, k1: u64 }`; no contract depends on the key values.
+    fn fixed_random_state() -> std::hash::RandomState {
+        unsafe { core::mem::transmute::<[u64; 2], std::hash::RandomState>([0, 0]) }
+    }
+
     /// frame sink for the generic `TX`; frames sent by the dispatcher are not observed in this unit
     #[derive(Debug, Clone)]
     struct Sink;
@@ -84,12 +121,13 @@ mod verif_c12_direction {
         DataBlocked,
     }
 
-    fn any_kind() -> Kind {
-        match kani::any::<u8>() % 5 {
+    /// RESET_STREAM is handled by separate (thorough-tier) harnesses: its path does `HashMap::remove(&sid)` on the
+    /// input table, i.e. SipHash of a symbolic key, which costs CBMC > 20 min
+    fn any_kind_but_reset() -> Kind {
+        match kani::any::<u8>() % 4 {
             0 => Kind::Stream,
-            1 => Kind::Reset,
-            2 => Kind::StopSending,
-            3 => Kind::MaxStreamData,
+            1 => Kind::StopSending,
+            2 => Kind::MaxStreamData,
             _ => Kind::DataBlocked,
         }
     }
@@ -118,10 +156,7 @@ mod verif_c12_direction {
                 let ft = ErrorFrameType::from(f.frame_type());
                 (ds.recv_data((f, Bytes::new())), ft)
             }
-            Kind::Reset => {
-                let f = ResetStreamFrame::new(sid, any_varint(), any_varint());
-                (ds.recv_stream_control(StreamCtlFrame::ResetStream(f)), ErrorFrameType::from(f.frame_type()))
-            }
+            Kind::Reset => deliver_reset(ds, sid),
             Kind::StopSending => {
                 let f = StopSendingFrame::new(sid, any_varint());
                 (ds.recv_stream_control(StreamCtlFrame::StopSending(f)), ErrorFrameType::from(f.frame_type()))
@@ -137,6 +172,36 @@ mod verif_c12_direction {
         }
     }
 
+    /// same without the RESET_STREAM arm (see any_kind_but_reset); feed one frame of the chosen kind on stream `sid` to the real dispatcher
+    fn deliver_no_reset(ds: &DataStreams<Sink>, kind: Kind, sid: StreamId) -> (Result<usize, QuicError>, ErrorFrameType) {
+        match kind {
+            Kind::Stream => {
+                let mut f = StreamFrame::new(sid, any_varint().into_u64(), 0);
+                f.set_eos_flag(kani::any());
+                let ft = ErrorFrameType::from(f.frame_type());
+                (ds.recv_data((f, Bytes::new())), ft)
+            }
+            Kind::Reset => unreachable!(),
+            Kind::StopSending => {
+                let f = StopSendingFrame::new(sid, any_varint());
+                (ds.recv_stream_control(StreamCtlFrame::StopSending(f)), ErrorFrameType::from(f.frame_type()))
+            }
+            Kind::MaxStreamData => {
+                let f = MaxStreamDataFrame::new(sid, any_varint());
+                (ds.recv_stream_control(StreamCtlFrame::MaxStreamData(f)), ErrorFrameType::from(f.frame_type()))
+            }
+            Kind::DataBlocked => {
+                let f = StreamDataBlockedFrame::new(sid, any_varint());
+                (ds.recv_stream_control(StreamCtlFrame::StreamDataBlocked(f)), ErrorFrameType::from(f.frame_type()))
+            }
+        }
+    }
+
+    fn deliver_reset(ds: &DataStreams<Sink>, sid: StreamId) -> (Result<usize, QuicError>, ErrorFrameType) {
+        let f = ResetStreamFrame::new(sid, any_varint(), any_varint());
+        (ds.recv_stream_control(StreamCtlFrame::ResetStream(f)), ErrorFrameType::from(f.frame_type()))
+    }
+
     /// C12 "sends on a stream it may only receive on => STREAM_STATE_ERROR": every frame kind, every stream id,
     /// both roles, any stream limits
     #[kani::proof]
@@ -144,10 +209,40 @@ mod verif_c12_direction {
     #[kani::stub(qevent::telemetry::macro_support::build_and_emit_event, noop_emit)]
     #[kani::stub(std::fmt::format, stub_format)]
     #[kani::stub(core::fmt::write, stub_fmt_write)]
+    #[kani::stub(std::hash::RandomState::new, fixed_random_state)]
+    #[kani::stub(DataStreams::try_accept_sid, never_accept)]
     fn direction_violation_contract() {
+        let kind = any_kind_but_reset();
         let role = any_role();
         let ds = fresh_streams(role, kani::any(), kani::any());
-        let kind = any_kind();
+        let sid = any_sid();
+        kani::assume(contradicts_direction(kind, sid, role));
+        let (res, ft) = deliver_no_reset(&ds, kind, sid);
+        match res {
+            Err(e) => {
+                assert!(e.kind() == ErrorKind::StreamState, "C12.direction.wrong_direction_is_stream_state_error");
+                assert!(e.frame_type() == ft, "C12.direction.error_names_frame_type");
+            }
+            Ok(_) => assert!(false, "C12.direction.wrong_direction_is_refused"),
+        }
+        kani::cover!(kind == Kind::Stream, "C12.direction.reach_stream_on_own_uni");
+        kani::cover!(kind == Kind::DataBlocked, "C12.direction.reach_blocked_on_own_uni");
+        kani::cover!(kind == Kind::StopSending, "C12.direction.reach_stop_sending_on_peer_uni");
+        kani::cover!(kind == Kind::MaxStreamData, "C12.direction.reach_max_stream_data_on_peer_uni");
+        core::mem::forget(ds);
+    }
+
+    #[kani::proof]
+    #[kani::unwind(3)]
+    #[kani::stub(qevent::telemetry::macro_support::build_and_emit_event, noop_emit)]
+    #[kani::stub(std::fmt::format, stub_format)]
+    #[kani::stub(core::fmt::write, stub_fmt_write)]
+    #[kani::stub(std::hash::RandomState::new, fixed_random_state)]
+    #[kani::stub(DataStreams::try_accept_sid, never_accept)]
+    fn direction_violation_contract_reset() {
+        let kind = Kind::Reset;
+        let role = any_role();
+        let ds = fresh_streams(role, kani::any(), kani::any());
         let sid = any_sid();
         kani::assume(contradicts_direction(kind, sid, role));
         let (res, ft) = deliver(&ds, kind, sid);
@@ -158,11 +253,8 @@ mod verif_c12_direction {
             }
             Ok(_) => assert!(false, "C12.direction.wrong_direction_is_refused"),
         }
-        kani::cover!(kind == Kind::Stream, "C12.direction.reach_stream_on_own_uni");
         kani::cover!(kind == Kind::Reset, "C12.direction.reach_reset_on_own_uni");
-        kani::cover!(kind == Kind::DataBlocked, "C12.direction.reach_blocked_on_own_uni");
-        kani::cover!(kind == Kind::StopSending, "C12.direction.reach_stop_sending_on_peer_uni");
-        kani::cover!(kind == Kind::MaxStreamData, "C12.direction.reach_max_stream_data_on_peer_uni");
+        kani::cover!(sid.dir() == Dir::Bi || sid.role() == role, "C12.direction.reset.reach");
         core::mem::forget(ds);
     }
 
@@ -174,17 +266,20 @@ mod verif_c12_direction {
     #[kani::stub(qevent::telemetry::macro_support::build_and_emit_event, noop_emit)]
     #[kani::stub(std::fmt::format, stub_format)]
     #[kani::stub(core::fmt::write, stub_fmt_write)]
+    #[kani::stub(std::hash::RandomState::new, fixed_random_state)]
+    #[kani::stub(DataStreams::create_sender, never_create_sender)]
+    #[kani::stub(DataStreams::create_recver, never_create_recver)]
     fn stream_limit_contract() {
+        let kind = any_kind_but_reset();
         let role = any_role();
         let max_bi: u64 = kani::any();
         let max_uni: u64 = kani::any();
         let ds = fresh_streams(role, max_bi, max_uni);
-        let kind = any_kind();
         let sid = any_sid();
         kani::assume(!contradicts_direction(kind, sid, role));
         kani::assume(sid.role() != role);
         kani::assume(sid.id() > if sid.dir() == Dir::Bi { max_bi } else { max_uni });
-        let (res, ft) = deliver(&ds, kind, sid);
+        let (res, ft) = deliver_no_reset(&ds, kind, sid);
         match res {
             Err(e) => {
                 assert!(e.kind() == ErrorKind::StreamLimit, "C12.direction.beyond_stream_count_is_stream_limit_error");
@@ -198,6 +293,37 @@ mod verif_c12_direction {
         core::mem::forget(ds);
     }
 
+    #[kani::proof]
+    #[kani::unwind(3)]
+    #[kani::stub(qevent::telemetry::macro_support::build_and_emit_event, noop_emit)]
+    #[kani::stub(std::fmt::format, stub_format)]
+    #[kani::stub(core::fmt::write, stub_fmt_write)]
+    #[kani::stub(std::hash::RandomState::new, fixed_random_state)]
+    #[kani::stub(DataStreams::create_sender, never_create_sender)]
+    #[kani::stub(DataStreams::create_recver, never_create_recver)]
+    fn stream_limit_contract_reset() {
+        let kind = Kind::Reset;
+        let role = any_role();
+        let max_bi: u64 = kani::any();
+        let max_uni: u64 = kani::any();
+        let ds = fresh_streams(role, max_bi, max_uni);
+        let sid = any_sid();
+        kani::assume(!contradicts_direction(kind, sid, role));
+        kani::assume(sid.role() != role);
+        kani::assume(sid.id() > if sid.dir() == Dir::Bi { max_bi } else { max_uni });
+        let (res, ft) = deliver(&ds, kind, sid);
+        match res {
+            Err(e) => {
+                assert!(e.kind() == ErrorKind::StreamLimit, "C12.direction.beyond_stream_count_is_stream_limit_error");
+                assert!(e.frame_type() == ft, "C12.direction.limit_error_names_frame_type");
+            }
+            Ok(_) => assert!(false, "C12.direction.beyond_stream_count_is_refused"),
+        }
+        kani::cover!(max_bi == 0 && sid.dir() == Dir::Bi, "C12.direction.reach_limit_zero");
+        kani::cover!(sid.dir() == Dir::Bi || sid.role() == role, "C12.direction.reset.reach");
+        core::mem::forget(ds);
+    }
+
     /// no false alarms: a frame that fits the direction, on a stream WE initiated, is never answered with an error
     /// by the dispatcher itself (the tables are empty here: the stream is unknown / already closed => ignored)
     #[kani::proof]
@@ -205,17 +331,39 @@ mod verif_c12_direction {
     #[kani::stub(qevent::telemetry::macro_support::build_and_emit_event, noop_emit)]
     #[kani::stub(std::fmt::format, stub_format)]
     #[kani::stub(core::fmt::write, stub_fmt_write)]
+    #[kani::stub(std::hash::RandomState::new, fixed_random_state)]
+    #[kani::stub(DataStreams::try_accept_sid, never_accept)]
     fn legal_frame_on_own_stream_contract() {
+        let kind = any_kind_but_reset();
         let role = any_role();
         let ds = fresh_streams(role, kani::any(), kani::any());
-        let kind = any_kind();
+        let sid = any_sid();
+        kani::assume(!contradicts_direction(kind, sid, role));
+        kani::assume(sid.role() == role);
+        let (res, _ft) = deliver_no_reset(&ds, kind, sid);
+        assert!(matches!(res, Ok(0)), "C12.direction.legal_frame_on_own_stream_not_refused");
+        kani::cover!(kind == Kind::StopSending && sid.dir() == Dir::Uni, "C12.direction.reach_stop_sending_own_uni");
+        kani::cover!(kind == Kind::Stream && sid.dir() == Dir::Bi, "C12.direction.reach_stream_own_bidi");
+        core::mem::forget(ds);
+    }
+
+    #[kani::proof]
+    #[kani::unwind(3)]
+    #[kani::stub(qevent::telemetry::macro_support::build_and_emit_event, noop_emit)]
+    #[kani::stub(std::fmt::format, stub_format)]
+    #[kani::stub(core::fmt::write, stub_fmt_write)]
+    #[kani::stub(std::hash::RandomState::new, fixed_random_state)]
+    #[kani::stub(DataStreams::try_accept_sid, never_accept)]
+    fn legal_frame_on_own_stream_contract_reset() {
+        let kind = Kind::Reset;
+        let role = any_role();
+        let ds = fresh_streams(role, kani::any(), kani::any());
         let sid = any_sid();
         kani::assume(!contradicts_direction(kind, sid, role));
         kani::assume(sid.role() == role);
         let (res, _ft) = deliver(&ds, kind, sid);
         assert!(matches!(res, Ok(0)), "C12.direction.legal_frame_on_own_stream_not_refused");
-        kani::cover!(kind == Kind::StopSending && sid.dir() == Dir::Uni, "C12.direction.reach_stop_sending_own_uni");
-        kani::cover!(kind == Kind::Stream && sid.dir() == Dir::Bi, "C12.direction.reach_stream_own_bidi");
+        kani::cover!(sid.dir() == Dir::Bi || sid.role() == role, "C12.direction.reset.reach");
         core::mem::forget(ds);
     }
 }
